@@ -8,18 +8,22 @@ package operations
 //@ define opsIdle(o ref) bool = !driveHeld && !mutexHeld[addr(o.diskOperationLock)]
 
 //@ func (*Operations).Delete
+//@   property C09
+//@   at call WriteHeader#1 assert [sealed-before-write] o.pipes.Encryption != "" ==> hdrSealed[arg_hdr]
 //@   property C10
 //@   safety C10
 //@   requires o != nil && opsReady(o) && opsIdle(o)
-//@   modifies *, driveHeld, mutexHeld[addr(o.diskOperationLock)], tapeWrites, indexWrites, ghosts(C04), ghosts(C08)
+//@   modifies *, driveHeld, mutexHeld[addr(o.diskOperationLock)], tapeWrites, indexWrites, ghosts(C04), ghosts(C08), ghosts(C09)
 //@   ensures [drive-free] !driveHeld
 //@   ensures [ops-free] !mutexHeld[addr(o.diskOperationLock)]
 
 //@ func (*Operations).Move
+//@   property C09
+//@   at call WriteHeader#1 assert [sealed-before-write] o.pipes.Encryption != "" ==> hdrSealed[arg_hdr]
 //@   property C10
 //@   safety C10
 //@   requires o != nil && opsReady(o) && opsIdle(o)
-//@   modifies *, driveHeld, mutexHeld[addr(o.diskOperationLock)], tapeWrites, indexWrites, ghosts(C04), ghosts(C08)
+//@   modifies *, driveHeld, mutexHeld[addr(o.diskOperationLock)], tapeWrites, indexWrites, ghosts(C04), ghosts(C08), ghosts(C09)
 //@   ensures [drive-free] !driveHeld
 //@   ensures [ops-free] !mutexHeld[addr(o.diskOperationLock)]
 
@@ -29,7 +33,7 @@ package operations
 //@   property C10
 //@   safety C10
 //@   requires o != nil && opsReady(o) && opsIdle(o)
-//@   modifies *, driveHeld, mutexHeld[addr(o.diskOperationLock)], ghosts(C04), ghosts(C08)
+//@   modifies *, driveHeld, mutexHeld[addr(o.diskOperationLock)], ghosts(C04), ghosts(C08), ghosts(C09)
 //@   ensures [drive-free] !driveHeld
 //@   ensures [ops-free] !mutexHeld[addr(o.diskOperationLock)]
 
@@ -37,22 +41,27 @@ package operations
 //@   property C10
 //@   safety C10
 //@   requires o != nil && opsReady(o) && opsIdle(o) && getSrc != nil
-//@   modifies *, driveHeld, mutexHeld[addr(o.diskOperationLock)], tapeWrites, indexWrites, ghosts(C04), ghosts(C08)
+//@   modifies *, driveHeld, mutexHeld[addr(o.diskOperationLock)], tapeWrites, indexWrites, ghosts(C04), ghosts(C08), ghosts(C09)
 //@   ensures [drive-free] !driveHeld
 //@   ensures [ops-free] !mutexHeld[addr(o.diskOperationLock)]
 
 //@ func (*Operations).archive
+//@   property C09
+//@   at call WriteHeader#1 assert [sealed-before-write] o.pipes.Encryption != "" ==> hdrSealed[arg_hdr]
 //@   property C10
 //@   safety C10
 //@   requires o != nil && opsReady(o) && !driveHeld && getSrc != nil
-//@   modifies *, driveHeld, tapeWrites, indexWrites, ghosts(C04), ghosts(C08)
+//@   modifies *, driveHeld, tapeWrites, indexWrites, ghosts(C04), ghosts(C08), ghosts(C09)
 //@   ensures [drive-free] !driveHeld
 
 //@ func (*Operations).Update
+//@   property C09
+//@   at call WriteHeader#1 assert [sealed-before-write] o.pipes.Encryption != "" ==> hdrSealed[arg_hdr]
+//@   at call WriteHeader#2 assert [sealed-before-write-meta] o.pipes.Encryption != "" ==> hdrSealed[arg_hdr]
 //@   property C10
 //@   safety C10
 //@   requires o != nil && opsReady(o) && opsIdle(o) && getSrc != nil
-//@   modifies *, driveHeld, mutexHeld[addr(o.diskOperationLock)], tapeWrites, indexWrites, ghosts(C04), ghosts(C08)
+//@   modifies *, driveHeld, mutexHeld[addr(o.diskOperationLock)], tapeWrites, indexWrites, ghosts(C04), ghosts(C08), ghosts(C09)
 //@   ensures [drive-free] !driveHeld
 //@   ensures [ops-free] !mutexHeld[addr(o.diskOperationLock)]
 
@@ -60,14 +69,14 @@ package operations
 //@   property C10
 //@   safety C10
 //@   requires o != nil && opsReady(o) && opsIdle(o)
-//@   modifies *, driveHeld, mutexHeld[addr(o.diskOperationLock)], tapeWrites, indexWrites, ghosts(C04), ghosts(C08)
+//@   modifies *, driveHeld, mutexHeld[addr(o.diskOperationLock)], tapeWrites, indexWrites, ghosts(C04), ghosts(C08), ghosts(C09)
 //@   ensures [drive-free] !driveHeld
 //@   ensures [ops-free] !mutexHeld[addr(o.diskOperationLock)]
 
 //@ func (*Operations).Delete$2
 //@   property C08
 //@   conforms HeaderSubst
-//@   modifies *, hdrVerified[hdr], hdrSubstituted[hdr]
+//@   modifies *, hdrVerified[hdr], hdrSubstituted[hdr], hdrSealed[hdr]
 //@   ghostset hdrSubstituted[hdr] := result == nil
 
 //@ func (*Operations).Delete$3
@@ -77,7 +86,7 @@ package operations
 //@ func (*Operations).Move$2
 //@   property C08
 //@   conforms HeaderSubst
-//@   modifies *, hdrVerified[hdr], hdrSubstituted[hdr]
+//@   modifies *, hdrVerified[hdr], hdrSubstituted[hdr], hdrSealed[hdr]
 //@   ghostset hdrSubstituted[hdr] := result == nil
 
 //@ func (*Operations).Move$3
@@ -87,7 +96,7 @@ package operations
 //@ func (*Operations).Update$2
 //@   property C08
 //@   conforms HeaderSubst
-//@   modifies *, hdrVerified[hdr], hdrSubstituted[hdr]
+//@   modifies *, hdrVerified[hdr], hdrSubstituted[hdr], hdrSealed[hdr]
 //@   ghostset hdrSubstituted[hdr] := result == nil
 
 //@ func (*Operations).Update$3
@@ -97,7 +106,7 @@ package operations
 //@ func (*Operations).archive$2
 //@   property C08
 //@   conforms HeaderSubst
-//@   modifies *, hdrVerified[hdr], hdrSubstituted[hdr]
+//@   modifies *, hdrVerified[hdr], hdrSubstituted[hdr], hdrSealed[hdr]
 //@   ghostset hdrSubstituted[hdr] := result == nil
 
 //@ func (*Operations).archive$3
